@@ -593,6 +593,8 @@ def check_fantasy_object(out, i, recipe, root_sd, node, op, tol, lanczos=False):
         obs_f["inv_from_covar_cache"] = pf
         obs_r["inv_from_covar_cache"] = pr
     bad, mx = compare.compare_obs(obs_f, obs_r, tol * 10)  # an explicit inverse amplifies rounding by the conditioning
+    # psd_safe_cholesky may add jitter (up to 1e-6 in float64) on one of the two routes: (A + jI)^-1 - A^-1 ~ j |A^-1|^2
+    bad = [(q, diff, scale) for q, diff, scale in bad if not (q == "inv_from_covar_cache" and diff <= tol * 10 * scale + 1e-6 * scale * scale)]
     if bad:
         q, diff, scale = bad[0]
         out.violate(
